@@ -10,6 +10,8 @@ import (
 	"encoding/json"
 	"flag"
 	"fmt"
+	"go/ast"
+	"go/types"
 	"os"
 	"os/exec"
 	"path/filepath"
@@ -22,6 +24,7 @@ import (
 	"time"
 
 	"verif/checker/ir"
+	"verif/checker/norm"
 	"verif/checker/report"
 	"verif/checker/rules"
 )
@@ -55,6 +58,10 @@ func main() {
 	switch os.Args[1] {
 	case "check":
 		os.Exit(cmdCheck(os.Args[2:]))
+	case "inventory":
+		os.Exit(cmdInventory())
+	case "normal":
+		os.Exit(cmdNormal(os.Args[2:]))
 	case "selftest":
 		os.Exit(cmdSelftest(os.Args[2:]))
 	case "replay":
@@ -88,6 +95,310 @@ func loadFor(chk *rules.Check, cfg config, overlay map[string][]byte) (*ir.Prog,
 	return ir.Load(ir.Config{Dir: repoDir, Patterns: patterns(chk), GOOS: cfg.goos, GOARCH: cfg.goarch, Overlay: overlay})
 }
 
+// openFindingKeys returns the obligation keys listed as open findings.
+func openFindingKeys() map[string]bool {
+	findings, _ := report.LoadFindings(filepath.Join(verifDir, "KNOWN_FINDINGS.txt"))
+	open := map[string]bool{}
+	for _, f := range findings {
+		if f.Open {
+			open[f.Key] = true
+		}
+	}
+	return open
+}
+
+// clean: no unlisted violation, no undecided obligation, no check error.
+func clean(res *report.Result, open map[string]bool) bool {
+	if res == nil || len(res.Errors) > 0 {
+		return false
+	}
+	for _, o := range res.Obligations {
+		if o.Status == report.Undecided || (o.Status == report.Violated && !open[o.Key]) {
+			return false
+		}
+	}
+	return true
+}
+
+// normalForm computes the helper-inlined normal form (package norm) of the packages chk reads, on top of the overlay
+// base. exempt names the functions that stay calls (the roles the rules resolved on the original program).
+func normalForm(chk *rules.Check, cfg config, base map[string][]byte, exempt map[string]bool) (map[string][]byte, []string, error) {
+	overlay := map[string][]byte{}
+	for k, v := range base {
+		overlay[k] = v
+	}
+	var log []string
+	counter := 0
+	changedAny := false
+	keep := map[string]bool{}
+	for round := 0; round < 8; round++ {
+		p, err := loadFor(chk, cfg, overlay)
+		if err != nil {
+			return nil, log, err
+		}
+		if round == 0 {
+			for _, pk := range p.Pkgs {
+				for k := range norm.Unreferenced(pk) {
+					keep[k] = true
+				}
+			}
+		}
+		changed := false
+		for _, pk := range p.Pkgs {
+			ours := false
+			for _, rel := range chk.Pkgs {
+				if pk.PkgPath == ir.Module+"/"+rel {
+					ours = true
+				}
+			}
+			if !ours {
+				continue
+			}
+			r, err := norm.Round(pk, exempt, &counter)
+			if err != nil {
+				return nil, log, err
+			}
+			for f, b := range r.Overlay {
+				overlay[f] = b
+				changed = true
+			}
+			log = append(log, r.Inlined...)
+		}
+		if !changed {
+			break
+		}
+		changedAny = true
+	}
+	if !changedAny {
+		return nil, log, nil
+	}
+	// helpers nothing refers to any more are dead code: remove them, so that no rule looks at a body that is never run
+	for round := 0; round < 4; round++ {
+		p, err := loadFor(chk, cfg, overlay)
+		if err != nil {
+			return nil, log, err
+		}
+		changed := false
+		for _, pk := range p.Pkgs {
+			ours := false
+			for _, rel := range chk.Pkgs {
+				if pk.PkgPath == ir.Module+"/"+rel {
+					ours = true
+				}
+			}
+			if !ours {
+				continue
+			}
+			ov, removed, err := norm.Prune(pk, keep)
+			if err != nil {
+				return nil, log, err
+			}
+			for f, b := range ov {
+				overlay[f] = b
+				changed = true
+			}
+			for _, r := range removed {
+				log = append(log, "removed unused "+r)
+			}
+		}
+		if !changed {
+			break
+		}
+	}
+	return overlay, log, nil
+}
+
+// decide runs the check of chk on the tree (with overlay). When the verdict on the program as written is not clean,
+// the helper-inlined normal form of the same program is checked as well: inlining preserves behaviour, so a clean
+// verdict on the normal form (with every rule still matching at least its floor of constructs) is a verdict about the
+// program as written. A violation is reported only if it is found on both forms; it is reported with the positions of
+// the program as written.
+func decide(chk *rules.Check, cfg config, overlay map[string][]byte) (res *report.Result, note string, err error) {
+	open := openFindingKeys()
+	p, err := loadFor(chk, cfg, overlay)
+	if err != nil {
+		return nil, "", err
+	}
+	res = rules.RunCheck(chk, p, cfg.String())
+	exempt := rules.ClaimedFns(p.SSA)
+	rules.ForgetClaims(p.SSA)
+	if clean(res, open) || os.Getenv("VERIF_NO_NORMAL_FORM") != "" {
+		return res, "", nil
+	}
+	// helpers the rules were written against (inventory of the tree at the time) stay calls as well: the rules know them
+	for k := range baselineHelpers() {
+		exempt[k] = true
+	}
+	nf, log, nerr := normalForm(chk, cfg, overlay, exempt)
+	if nerr != nil || nf == nil {
+		return res, "", nil // the normal form does not exist / does not type-check: the verdict on the program as written stands
+	}
+	p2, err2 := loadFor(chk, cfg, nf)
+	if err2 != nil {
+		return res, "", nil
+	}
+	var res2 *report.Result
+	func() {
+		defer func() {
+			if r := recover(); r != nil {
+				res2 = nil
+			}
+		}()
+		res2 = rules.RunCheck(chk, p2, cfg.String())
+	}()
+	rules.ForgetClaims(p2.SSA)
+	if res2 != nil && clean(res2, open) {
+		sort.Strings(log)
+		return res2, fmt.Sprintf("decided on the helper-inlined normal form (%d call(s) inlined: %s)", len(log), strings.Join(uniq(log), "; ")), nil
+	}
+	return res, "", nil
+}
+
+var (
+	baselineOnce sync.Once
+	baselineSet  map[string]bool
+)
+
+// baselineHelpers reads /verif/baseline_helpers.txt: the short names of the private functions the repository had when
+// the rules were written. The file only steers which calls the normal form inlines (any choice is behaviour
+// preserving); it is never used for a verdict.
+func baselineHelpers() map[string]bool {
+	baselineOnce.Do(func() {
+		baselineSet = map[string]bool{}
+		b, err := os.ReadFile(filepath.Join(verifDir, "baseline_helpers.txt"))
+		if err != nil {
+			return
+		}
+		for _, l := range strings.Split(string(b), "\n") {
+			l = strings.TrimSpace(l)
+			if l != "" && !strings.HasPrefix(l, "#") {
+				baselineSet[l] = true
+			}
+		}
+	})
+	return baselineSet
+}
+
+// cmdInventory prints the private functions of the repository (short names), for baseline_helpers.txt.
+func cmdInventory() int {
+	seen := map[string]bool{}
+	for _, id := range rules.IDs() {
+		chk := rules.Get(id)
+		p, err := loadFor(chk, primary, nil)
+		if err != nil {
+			fmt.Fprintln(os.Stderr, err)
+			return 2
+		}
+		for _, pk := range p.Pkgs {
+			if !strings.HasPrefix(pk.PkgPath, ir.Module) {
+				continue
+			}
+			for _, f := range pk.Syntax {
+				for _, d := range f.Decls {
+					if fd, ok := d.(*ast.FuncDecl); ok {
+						if obj, ok := pk.TypesInfo.Defs[fd.Name].(*types.Func); ok && !obj.Exported() {
+							seen[norm.ShortName(obj)] = true
+						}
+					}
+				}
+			}
+		}
+	}
+	var names []string
+	for k := range seen {
+		names = append(names, k)
+	}
+	sort.Strings(names)
+	fmt.Println("# private functions of the repository when the rules were written (see DESIGN.md, normal form)")
+	for _, n := range names {
+		fmt.Println(n)
+	}
+	return 0
+}
+
+func uniq(l []string) []string {
+	var out []string
+	seen := map[string]bool{}
+	for _, x := range l {
+		if !seen[x] {
+			seen[x] = true
+			out = append(out, x)
+		}
+	}
+	return out
+}
+
+// cmdNormal is a debugging aid: it writes the helper-inlined normal form of the packages of a property to a directory
+// and prints the verdict of the check on it.
+func cmdNormal(args []string) int {
+	fs := flag.NewFlagSet("normal", flag.ExitOnError)
+	prop := fs.String("prop", "", "property id")
+	out := fs.String("out", "", "directory to write the normalised files to")
+	patchDir := fs.String("patch", "", "optional directory with a patch.diff to apply first (overlay)")
+	fs.Parse(args)
+	chk := rules.Get(*prop)
+	if chk == nil {
+		return 2
+	}
+	var overlay map[string][]byte
+	if *patchDir != "" {
+		var err error
+		overlay, _, err = patchOverlay(*patchDir)
+		if err != nil {
+			fmt.Println(err)
+			return 2
+		}
+	}
+	p, err := loadFor(chk, primary, overlay)
+	if err != nil {
+		fmt.Println(err)
+		return 2
+	}
+	res := rules.RunCheck(chk, p, primary.String())
+	exempt := rules.ClaimedFns(p.SSA)
+	var ex []string
+	for k := range exempt {
+		ex = append(ex, k)
+	}
+	sort.Strings(ex)
+	fmt.Println("as written: errors:", res.Errors)
+	for _, o := range res.Obligations {
+		if o.Status != report.Discharged {
+			fmt.Printf("  %s %s @ %s\n", o.Status, o.Key, o.Pos)
+		}
+	}
+	fmt.Println("role functions (not inlined):", strings.Join(ex, ", "))
+	for k := range baselineHelpers() {
+		exempt[k] = true
+	}
+	nf, log, err := normalForm(chk, primary, overlay, exempt)
+	fmt.Println("inlined:", strings.Join(uniq(log), "; "), "err:", err)
+	if nf == nil {
+		fmt.Println("no normal form")
+		return 0
+	}
+	if *out != "" {
+		for f, b := range nf {
+			rel, _ := filepath.Rel(repoDir, f)
+			os.MkdirAll(filepath.Dir(filepath.Join(*out, rel)), 0o755)
+			os.WriteFile(filepath.Join(*out, rel), b, 0o644)
+		}
+	}
+	p2, err := loadFor(chk, primary, nf)
+	if err != nil {
+		fmt.Println("normal form does not load:", err)
+		return 2
+	}
+	res2 := rules.RunCheck(chk, p2, primary.String())
+	fmt.Println("normal form: errors:", res2.Errors)
+	for _, o := range res2.Obligations {
+		if o.Status != report.Discharged {
+			fmt.Printf("  %s %s @ %s: %s\n", o.Status, o.Key, o.Pos, o.Detail)
+		}
+	}
+	return 0
+}
+
 func cmdCheck(args []string) int {
 	fs := flag.NewFlagSet("check", flag.ExitOnError)
 	prop := fs.String("prop", "", "property id")
@@ -113,6 +424,7 @@ func cmdCheck(args []string) int {
 		cfgs = matrix
 	}
 	results := make([]*report.Result, len(cfgs))
+	notes := make([]string, len(cfgs))
 	errs := make([]error, len(cfgs))
 	var wg sync.WaitGroup
 	sem := make(chan struct{}, 3)
@@ -128,12 +440,13 @@ func cmdCheck(args []string) int {
 					fmt.Fprintf(os.Stderr, "%s\n", debug.Stack())
 				}
 			}()
-			p, err := loadFor(chk, cfg, nil)
+			r, note, err := decide(chk, cfg, nil)
 			if err != nil {
 				errs[i] = fmt.Errorf("%s: %w", cfg, err)
 				return
 			}
-			results[i] = rules.RunCheck(chk, p, cfg.String())
+			results[i] = r
+			notes[i] = note
 		}(i, cfg)
 	}
 	wg.Wait()
@@ -266,6 +579,7 @@ func cmdCheck(args []string) int {
 		"checker_cmd":        "bin/verifcheck check -prop " + chk.ID + " -tier " + *tier,
 		"trusted_base":       append([]string{"go/types, go/ssa, go/packages (golang.org/x/tools v0.29.0)", "Go memory model: sync.Mutex critical sections, channel close wakes all receivers"}, chk.Trusted...),
 		"check_errors":       checkErrs,
+		"normal_form":        notes,
 		"exhaustive":         true,
 		"rule":               "every rule enumerates all of its instances in the loaded packages; an obligation is one rule applied to one construct (function, call site, exit, table entry); nothing is sampled",
 	}
@@ -372,11 +686,6 @@ func runMutant(m Mutant) mutantOutcome {
 		}
 		overlay[abs] = []byte(strings.Replace(string(src), e.Old, e.New, 1))
 	}
-	p, err := loadFor(chk, primary, overlay)
-	if err != nil {
-		out.Outcome, out.Detail = "error", "mutant does not load: "+err.Error()
-		return out
-	}
 	var res *report.Result
 	func() {
 		defer func() {
@@ -384,7 +693,12 @@ func runMutant(m Mutant) mutantOutcome {
 				out.Outcome, out.Detail = "error", fmt.Sprintf("panic: %v", r)
 			}
 		}()
-		res = rules.RunCheck(chk, p, primary.String())
+		var err error
+		res, _, err = decide(chk, primary, overlay)
+		if err != nil {
+			out.Outcome, out.Detail = "error", "mutant does not load: "+err.Error()
+			res = nil
+		}
 	}()
 	if res == nil {
 		return out
@@ -722,12 +1036,11 @@ func runSeed(id, dir, prop string) (out seedOutcome) {
 			overlay[filepath.Join(repoDir, f)] = b
 		}
 	}
-	p, err := loadFor(chk, primary, overlay)
+	res, _, err := decide(chk, primary, overlay)
 	if err != nil {
 		out.Outcome, out.Detail = "error", "does not load: "+err.Error()
 		return
 	}
-	res := rules.RunCheck(chk, p, primary.String())
 	findings, _ := report.LoadFindings(filepath.Join(verifDir, "KNOWN_FINDINGS.txt"))
 	open := map[string]bool{}
 	for _, f := range findings {
@@ -845,12 +1158,12 @@ func runBenign(prop string, verbose bool) []seedOutcome {
 							out.Outcome, out.Detail = "check-error", fmt.Sprintf("panic: %v", r)
 						}
 					}()
-					p, err := loadFor(chk, primary, overlay)
+					res, note, err := decide(chk, primary, overlay)
 					if err != nil {
 						out.Outcome, out.Detail = "check-error", "does not load: "+err.Error()
 						return
 					}
-					res := rules.RunCheck(chk, p, primary.String())
+					_ = note
 					for _, o := range res.Obligations {
 						if o.Status == report.Violated && !open[o.Key] {
 							out.Outcome, out.Detail = "false-alarm", o.Key+" @ "+o.Pos+": "+o.Detail
